@@ -859,6 +859,59 @@ theorem ibisNative_eval_eq_stats (s : ColSpec) (T : List (Row κ α)) (v : κ)
       rfl
     simp only [aggRow, hl, hr0, evalRow, ucol]
 
+/-- **Ibis native, ungrouped** (power analysis on a backend with `var`/`cov`): one row holding the statistics of
+the whole table -/
+theorem ibisNativeU_eval_eq_stats (s : ColSpec) (T : List (Row κ α)) (hn : 1 ≤ T.length) :
+    ∃ r, eval (ibisNativeQuery false s) T = [r] ∧
+      (s.has_count = true → r.val Name.count = (T.length : α)) ∧
+      (∀ c ∈ s.mean_cols, r.val (Name.mean c) = smean T (fun r => r.val (.user c))) ∧
+      (∀ c ∈ s.var_cols, r.val (Name.var c) = svar T (fun r => r.val (.user c))) ∧
+      (∀ p ∈ s.cov_cols, r.val (Name.cov p.1 p.2)
+        = scov T (fun r => r.val (.user p.1)) (fun r => r.val (.user p.2))) := by
+  have hq : ibisNativeQuery false s = [Stage.aggregate false (ntAgg s)] := rfl
+  rw [hq]
+  simp only [eval, List.foldl_cons, List.foldl_nil, evalStage, aggregate, Bool.false_eq_true, if_false]
+  obtain ⟨r0, hr0⟩ : ∃ r0, T.head? = some r0 := by
+    cases h : T with
+    | nil => rw [h] at hn; simp at hn
+    | cons a l => exact ⟨a, rfl⟩
+  refine ⟨_, rfl, ?_, ?_, ?_, ?_⟩
+  · intro hc
+    simp only [aggRow, nt_lookup_count s hc, hr0, evalRow]
+  · intro c hc
+    simp only [aggRow, nt_lookup_mean s c hc, hr0, evalRow, ucol]
+  · intro c hc
+    have hl : lookupDef (ntAgg s) (Name.var c) = some (Expr.varSample (.cast (ucol c))) := by
+      unfold ntAgg
+      have h1 : lookupDef (if s.has_count then [(Name.count, Expr.countStar)] else []) (Name.var c) = none := by
+        split_ifs <;> simp [lookupDef]
+      rw [lookupDef_append, lookupDef_append, lookupDef_append, h1,
+        lookupDef_map_none _ _ _ _ (fun c' => by simp), lookupDef_map _ Name.var _ (fun a b h => by injection h) c hc]
+      rfl
+    simp only [aggRow, hl, hr0, evalRow, ucol]
+  · intro p hp
+    have hl : lookupDef (ntAgg s) (Name.cov p.1 p.2) = some (Expr.covSample (.cast (ucol p.1)) (.cast (ucol p.2))) := by
+      unfold ntAgg
+      have h1 : lookupDef (if s.has_count then [(Name.count, Expr.countStar)] else []) (Name.cov p.1 p.2) = none := by
+        split_ifs <;> simp [lookupDef]
+      rw [lookupDef_append, lookupDef_append, lookupDef_append, h1,
+        lookupDef_map_none _ _ _ _ (fun c' => by simp), lookupDef_map_none _ _ _ _ (fun c' => by simp),
+        lookupDef_map_pair _ (fun p => Expr.covSample (.cast (ucol p.1)) (.cast (ucol p.2))) p hp]
+      rfl
+    simp only [aggRow, hl, hr0, evalRow, ucol]
+
+/-- the SQL fallback without variances / covariances is the native pipeline (no demeaning stage): means and counts
+only, e.g. `SampleRatio` on an Ibis table -/
+theorem ibisFallback_meansOnly (g : Bool) (s : ColSpec) (h : covarCols s = []) :
+    ibisFallbackQuery g s = [Stage.aggregate g ((if s.has_count then [(Name.count, Expr.countStar)] else [])
+      ++ s.mean_cols.map (fun c => (Name.mean c, Expr.mean (.cast (ucol c))))
+      ++ s.var_cols.map (fun c => (Name.var c,
+          Expr.div (.sum (.mul (.col (.demean c)) (.col (.demean c)))) (.sub .countStar (.lit 1))))
+      ++ s.cov_cols.map (fun p => (Name.cov p.1 p.2,
+          Expr.div (.sum (.mul (.col (.demean p.1)) (.col (.demean p.2)))) (.sub .countStar (.lit 1)))))] := by
+  unfold ibisFallbackQuery
+  simp [h]
+
 /-! ## one statement for the three pipelines -/
 
 /-- row `r` holds, under the output names, the exact sample statistics of the rows of `T` with variant `v` -/
